@@ -405,6 +405,9 @@ package swarm
 //@ func (w *dialWorker) dispatchError
 //@ prop C05
 //@ requires wOwn(w)
+// the last-chance answer for a waiting caller is looked up under that caller's own options (force-direct,
+// limited-connection permission), not under those of whoever first introduced the failed address
+//@ callsite bestAcceptableConnToPeer#0 requires arg1 == pr.req.ctx && arg2 == w.peer
 //@ loop 0 invariant forall r *pendRequest :: has(w.pendingRequests, r) ==> old(has(w.pendingRequests, r))
 //@ loop 0 invariant wOwn(w)
 //@ loop 0 invariant old(wLive(w)) ==> wLive(w)
@@ -478,5 +481,10 @@ package swarm
 //@ callsite dispatchError#1 requires arg1 == ad && arg2 == ret(addConn, 0, 1) && arg2 != nil && ghost.closed(res.Conn)
 //@ callsite AddBackoff#0 requires !w.connected && res.Err != context.Canceled && res.Err != ErrDialRefusedBlackHole && arg1 == w.peer && arg2 == res.Addr
 //@ callsite dispatchError#2 requires arg1 == ad && arg2 == res.Err && res.Conn == nil && ad == w.trackedDials[string(res.Addr.Bytes())]
+// "each address is handed to a transport at most once": an address that was already dispatched is never put back
+// on the dial queue when a later caller joins it (only its delay may change while it is still waiting), and a new
+// request is first answered from the connections acceptable under ITS OWN dial options
+//@ callsite UpdateOrAdd#0 requires !ad.dialed && arg1.Addr == ad.addr
+//@ callsite bestAcceptableConnToPeer#0 requires arg1 == req.ctx && arg2 == w.peer
 //@ ensures called(clearAllPeerDials, 0) && arg(clearAllPeerDials, 0, 1) == w.peer && called(Stop, 0)
 //@ noframe
